@@ -733,9 +733,11 @@ func ParseTCP(flowMessage *ProtoProducerMessage, data []byte, pc ParseConfig) (r
 		return res, nil
 	}
 
-	length := int(data[13]>>4) * 4
-
-	res.Size = 20 + length
+	// header length comes from the data offset field (byte 12, upper nibble, in 32-bit words)
+	res.Size = int(data[12]>>4) * 4
+	if res.Size < 20 {
+		res.Size = 20
+	}
 
 	flowMessage.AddLayer("TCP")
 
